@@ -139,12 +139,14 @@ def digitsUnderscores (s : List Char) : Bool :=
   | c :: r => isDigit c && r.all (fun c => isDigit c || c == '_')
   | [] => false
 
-/-- underscores only between two digits (the rule of Go 1.13 that the lexer's comment refers to) -/
-def underscoresBetweenDigits : List Char → Bool
-  | [] => true
-  | [c] => c != '_'
-  | a :: b :: r => (if b == '_' then isDigit a && (match r with | c :: _ => isDigit c | [] => false) else true)
-                     && a != '_' && underscoresBetweenDigits (b :: r)
+/-- underscores only between two digits (the rule of Go 1.13 that the lexer's comment refers to):
+none at the start, none at the end, no two in a row -/
+def noDoubleUnderscore : List Char → Bool
+  | a :: b :: r => !(a == '_' && b == '_') && noDoubleUnderscore (b :: r)
+  | _ => true
+
+def underscoresBetweenDigits (s : List Char) : Bool :=
+  s.head? != some '_' && s.getLast? != some '_' && noDoubleUnderscore s
 
 def stripSuffix? (suf s : List Char) : Option (List Char) :=
   if s.length ≥ suf.length ∧ s.drop (s.length - suf.length) = suf then some (s.take (s.length - suf.length)) else none
